@@ -405,7 +405,7 @@ class Gen:
             ub = p[1]
             return ["n", r.randint(0, ub - 1) if ub is not None and ub < 100 else r.choice([0, 3, 2**33])]
         if k == "S":
-            return ["s", r.choice(["", "hello", "ünï", "a\"b"])]
+            return ["s", r.choice(["", "hello", "ünï", "a\"b", "  padded\t", "\nline "])]
         if k == "L":
             return ["seq", [self.arg_for(p[1], depth) for _ in range(r.randint(0, 3))]]
         if k == "Tup":
